@@ -187,6 +187,8 @@ def local_env(f):
                 assigned[e['path']] += 1
         if e.k == 'call' and 'compare_exchange' in (e.get('callee') or '') and e.get('args'):
             written.add(e['args'][0].get('path') or '')       # the `expected` out-argument
+            if re.fullmatch(r'local:\w+', e['args'][0].get('path') or ''):
+                assigned[e['args'][0]['path']] += 1
     written.discard('')
 
     def depends_on_written(ini):
